@@ -46,6 +46,13 @@ class UniqueKey:
     def __eq__(self, value: object) -> bool:
         return isinstance(value,UniqueKey) and value._n == self._n
 
+class OutputEnd:
+    """Marks the end of a Multiprocessor's output queue (None can be a legitimate output of the filter)."""
+    def __eq__(self, value: object) -> bool:
+        return isinstance(value,OutputEnd)
+    def __hash__(self) -> int:
+        return hash(OutputEnd)
+
 class MyProcessLine(ProcessLine):
 
     ### We create a lock so that we can safely receive any possible exceptions. Empirical
@@ -197,7 +204,7 @@ class Multiprocessor(Filter[Iterable[Any], Iterable[Any]]):
             in_put    = QueueSink(in_queue,foreach=True)
             in_get    = QueueSource(in_queue) #make one of these for each process??
             out_put   = QueueSink(out_queue,foreach=True)
-            out_get   = QueueSource(out_queue)
+            out_get   = QueueSource(out_queue,poison=OutputEnd())
             pickler   = Pickler()
             unpickler = Unpickler()
             get_max   = Slice(None,self._maxtasksperchild)
@@ -238,7 +245,7 @@ class Multiprocessor(Filter[Iterable[Any], Iterable[Any]]):
                     self._n_procs -= 1
                     if self._n_procs == 0:
                         try:
-                            out_put.write([self._poison])
+                            out_put.write([OutputEnd()])
                         except ValueError: #pragma: no cover
                             pass
 
